@@ -256,6 +256,8 @@ def run_group(crate, features, units, logdir, mem_gb, playback=False, skip=None)
             for u in bad:
                 skipped[u.id] = u.harness
         out = res
+        for r_ in out.values():
+            r_["skip"] = sorted(skipped.values())
         for u in units:
             if u.id in skipped:
                 out[u.id] = {"status": "MISSING", "checks": [], "covers": [], "time": None, "playback": [], "raw": "",
@@ -493,7 +495,7 @@ def classify(unit, r):
 # ------------------------------------------------------------------------------------------------
 # native replay through `cargo kani playback`
 # ------------------------------------------------------------------------------------------------
-def native_replay(unit, test_code, test_name, logdir):
+def native_replay(unit, test_code, test_name, logdir, skip=None):
     """Put Kani's concrete-playback test next to the harness and run it natively against /repo.
     returns (reproduced: bool|None, excerpt)"""
     ensure_playback_files()
@@ -510,6 +512,8 @@ def native_replay(unit, test_code, test_name, logdir):
         env["CARGO_TARGET_DIR"] = os.path.join(BUILD, "kani-playback")
         env["RUST_BACKTRACE"] = "0"
         env.pop("RUSTFLAGS", None)
+        if skip:
+            env["RUSTFLAGS"] = " ".join(f"--cfg verif_skip_{h}" for h in skip)
         cwd = os.path.join(REPO, CRATE_DIRS[unit.crate])
         try:
             p = subprocess.run(cmd, cwd=cwd, env=env, stdout=subprocess.PIPE, stderr=subprocess.STDOUT, timeout=1800)
@@ -713,7 +717,7 @@ def main():
         pb = None
         if not (is_known and os.environ.get("VERIF_REPLAY_KNOWN", "0") != "1"):
             if "playback" not in r or not r["playback"]:
-                r2 = run_group(u.crate, u.features, [u], logdir, mem_gb, playback=True)[u.id]
+                r2 = run_group(u.crate, u.features, [u], logdir, mem_gb, playback=True, skip=r.get("skip") or [])[u.id]
                 r["playback"] = r2.get("playback", [])
         for c in o["failed_checks"]:
             for t in r["playback"]:
@@ -729,7 +733,7 @@ def main():
                     break
         reproduced, excerpt = (None, "verifier printed no concrete playback test for this check")
         if pb is not None and not (is_known and os.environ.get("VERIF_REPLAY_KNOWN", "0") != "1"):
-            reproduced, excerpt = native_replay(u, pb["code"], pb["test"], logdir)
+            reproduced, excerpt = native_replay(u, pb["code"], pb["test"], logdir, skip=r.get("skip") or [])
             if reproduced and not o.get("implicit"):
                 # must be the same obligation that fails natively
                 if oid not in excerpt:
